@@ -157,6 +157,7 @@ static unsigned char g_randq[QCAP][64]; static int g_randq_n = 0, g_randq_h = 0;
 static uint64_t g_timeq[QCAP]; static int g_timeq_n = 0, g_timeq_h = 0;
 static uint64_t g_prng = 0x9E3779B97F4A7C15ull;
 static uint64_t g_kdfkey = 1;
+static bool g_kdf_nowrite = false;   /* keygen with a key size no buffer can have: record the arguments, write nothing */
 static uint64_t splitmix(uint64_t* s) {
     uint64_t z = (*s += 0x9E3779B97F4A7C15ull);
     z = (z ^ (z >> 30)) * 0xBF58476D1CE4E5B9ull;
@@ -194,6 +195,7 @@ static void stub_kdf(int fid, const uint8_t* pw, size_t pwlen, const uint8_t* sa
     printf("E kdf f=%d pw=", fid); puthex(pw, pwlen);
     printf(" salt="); puthex(salt, saltlen);
     printf(" iters=%llu keylen=%zu out=", (unsigned long long)iterations, keylen);
+    if (g_kdf_nowrite) { printf("-\n"); return; }
     for (size_t i = 0; i < keylen; ++i) key[i] = (uint8_t)splitmix(&s);
     puthex(key, keylen); printf("\n");
 }
@@ -486,13 +488,18 @@ int main(int argc, char** argv) {
         }
         else if (!strcmp(op, "keygen")) {
             int k = SLOT(1); unsigned coin = (unsigned)NUM(2); size_t n = (size_t)NUM(3);
-            if (!g_slot[k] || n > 4096) { printf("> skip\n"); continue; }
+            if (!g_slot[k]) { printf("> skip\n"); continue; }
             printf("> keygen b%d %u %zu\n", seed_id(g_slot[k]), coin, n);
-            guard g = galloc(n ? n : 1, 0x77);
+            /* key sizes no buffer can have (2^32 and up): the length must still reach the KDF unaltered; the stub then records
+             * its arguments and writes nothing */
+            bool huge = n > 4096;
+            guard g = galloc(huge ? 16 : (n ? n : 1), 0x77);
             polyseed_data before = *g_slot[k];
-            g_in_lib = true; polyseed_keygen(g_slot[k], (polyseed_coin)coin, n, g.ptr + (n ? 0 : 1)); g_in_lib = false;
+            g_kdf_nowrite = huge;
+            g_in_lib = true; polyseed_keygen(g_slot[k], (polyseed_coin)coin, n, g.ptr + ((n && !huge) ? 0 : 1)); g_in_lib = false;
+            g_kdf_nowrite = false;
             if (memcmp(&before, g_slot[k], sizeof before)) printf("! keygen modified the seed\n");
-            printf("< key="); puthex(g.ptr, n); printf("\n");
+            printf("< key="); puthex(g.ptr, huge ? 0 : n); printf("\n");
             gfree(g);
         }
         else if (!strcmp(op, "load")) {
